@@ -62,6 +62,8 @@ func main() {
 		os.Stdout.Write(b)
 		fmt.Println()
 		return
+	case "sweep":
+		os.Exit(sweepAll(*repo, *verif))
 	case "list":
 		var ids []string
 		for id := range checks {
